@@ -15,7 +15,7 @@
 (* domain.  The census line (Census) is what the driver must reproduce on   *)
 (* the real accessors: exactly the undocumented raw values panic.           *)
 (***************************************************************************)
-EXTENDS RdaStatus, FiniteSets, Json
+EXTENDS RdaStatus, FiniteSets, Json, TLC
 
 OtherDocumented == [
   drd_control_flags            |-> {0, 1, 2, 3},                         \* GenericDataBlockHeader::control_flags  (Code1)
@@ -33,6 +33,26 @@ Raw(acc) == 0..(IF Width(acc) = 1 THEN 255 ELSE 65535)
 AllPartial == DOMAIN OtherDocumented \cup RdaPartial
 Undefined(acc) == Raw(acc) \ Documented(acc)
 Min(S) == CHOOSE x \in S : \A y \in S : x <= y
+
+(* The documented codes of the type-31 accessors and their meanings (Debug names of the enum variants); the RDA ones are
+   RdaStatus!Codes (C12), the message header's are MsgHeader!ChannelTable (C10), the clutter map's Cfm (C13).  The listed
+   properties fix the RAW fields of a type-31 message (C02) and the radial status / spacing as seen through the model radial
+   (C07); what these accessors make of the raw values is covered here. *)
+DrdMeanings == [
+  drd_control_flags |-> [c \in 0..3 |-> CASE c = 0 -> "None" [] c = 1 -> "RecombinedAzimuthalRadials" [] c = 2 -> "RecombinedRangeGates"
+                                            [] OTHER -> "RecombinedRadialsAndRangeGatesToLegacyResolution"],
+  drd_compression_indicator |-> [c \in 0..255 |-> CASE c = 0 -> "Uncompressed" [] c = 1 -> "CompressedBZIP2" [] c = 2 -> "CompressedZLIB" [] OTHER -> "FutureUse"],
+  drd_radial_status |-> [c \in 0..255 |-> CASE c = 0 -> "ElevationStart" [] c = 1 -> "IntermediateRadialData" [] c = 2 -> "ElevationEnd" [] c = 3 -> "VolumeScanStart"
+                                            [] c = 4 -> "VolumeScanEnd" [] OTHER -> "ElevationStartVCPFinal"],
+  vol_volume_coverage_pattern |-> [c \in {12, 31, 35, 112, 212, 215} |-> "VCP" \o ToString(c)]]
+(* scaled accessors: value = raw * num / den in the unit given (ICD scalings); the driver reports round(value * den) *)
+DrdScaled == [
+  gen_data_moment_range |-> <<1, 1000>>,                  \* kilometres
+  gen_data_moment_range_sample_interval |-> <<1, 1000>>,  \* kilometres
+  gen_moment_size_x8 |-> <<1, 1>>,                        \* bytes * 8 = gates * word size (raw is the product reported by the driver)
+  hdr_azimuth_resolution_spacing |-> <<1, 2>>,            \* degrees
+  hdr_azimuth_indexing_mode |-> <<1, 100>>,               \* degrees; raw 0 = none (reported as -1)
+  hdr_radial_length |-> <<1, 1>>]                         \* bytes
 
 VARIABLE call                                   \* <<accessor, raw>>: one use of an accessor on a decoded message
 Init == call \in {<<acc, r>> : acc \in AllPartial, r \in {0, 1, 2, 3, 4, 5, 7, 8, 16, 64, 255}}
